@@ -409,12 +409,26 @@ def ungrouped_having_queries() -> list:
     return out
 
 
+def reused_reference_names() -> list:
+    """The generator keeps reference names unique within a statement; here two *different* sources carry the same
+    reference name in different scopes (the two operands of a set operation) - names are local to their query."""
+    out = []
+    for kind in A.SET_KINDS:
+        left = A.query(A.ref(A.table('A'), 't'), [A.alias(A.elem('t', 'x'), 'v')])
+        right = A.query(A.ref(A.table('B'), 't'), [A.alias(A.elem('t', 'a'), 'v')])
+        out.append({'stmt': A.setop(left, right, kind), 'data': _EXTRA_DATA})
+        left = A.query(A.ref(A.table('B'), 't'), [A.alias(A.elem('t', 'a'), 'v')], where=A.cmp('gt', A.elem('t', 'y'), A.lit(1.0)))
+        right = A.query(A.ref(A.table('A'), 't'), [A.alias(A.elem('t', 'x'), 'v')], where=A.cmp('gt', A.elem('t', 'f'), A.lit(1.0)))
+        out.append({'stmt': A.setop(left, right, kind), 'data': _EXTRA_DATA})
+    return out
+
+
 def enumerate_extra(ctx, shard, nshards):
     for k, v in sorted(_EXCLUDED.items()):
         ctx.extra[f'clean_excluded:{k}'] = v
     if shard == 0:
         ctx.campaign = 'parser'
-        for spec in direct_set_queries() + ungrouped_having_queries():
+        for spec in direct_set_queries() + ungrouped_having_queries() + reused_reference_names():
             check_parser(ctx, spec)
 
 
